@@ -835,8 +835,9 @@ Definition opt_inview (o : option sl) (v : sl) : Prop := match o with Some t => 
 Definition attr_first (z : lx) : Prop :=
   exists c0, pk z 0 = Some c0 /\ is_ws c0 = false /\ eof0 z c0 = false /\ c0 <> 62 /\ ~ (c0 = 47 /\ pk z 1 = Some 62).
 
-Definition attr_post (l : lexer) (z : lx) (r : sl * lexer) : Prop :=
+Definition attr_post (c : cfg) (l : lexer) (z : lx) (r : sl * lexer) : Prop :=
   let '(v, l') := r in
+  (exists r0, tmpl_rep_guarded c z (lhas l) = Ok r0 /\ lpos (fst r0) <= lpos (lz l') /\ (snd r0 = true -> lhas l' = true)) /\
   exists t, ltext l' = Some t /\ inview t v /\ opt_inview (lattr l') v /\
     (lbuf (lz l') = lower_view (lbuf z) t \/ (lbuf (lz l') = lbuf z /\ lhas l' = true)) /\
     so v = lstart z /\ so v + sn v = lpos (lz l') /\ lstart (lz l') = lpos (lz l') /\
@@ -847,13 +848,13 @@ Lemma skip_wf z : lx_wf z -> lx_wf (skip z).
 Proof. intros (Hd & Hs & Hp). unfold lx_wf, skip, lx_len in *. cbn [lbuf lstart lpos]. split; [exact Hd|lia]. Qed.
 
 Lemma shift_attribute_spec c l z : cfg_ok c -> lx_wf z -> attr_first z ->
-  safe (shift_attribute c l z) (attr_post l z).
+  safe (shift_attribute c l z) (attr_post c l z).
 Proof.
   intros Hc Hw (cf & Hpf & Hf1 & Hf2 & Hf3 & Hf4). unfold shift_attribute.
   assert (Hs0 : 0 <= lstart z <= lpos z) by (destruct Hw as (_ & ? & _); lia).
-  eapply safe_bind; [apply tmpl_rep_guarded_spec; assumption|]. cbn beta. intros [z0 h0] [Hr0 _]. cbn [fst snd] in *.
+  destruct (safe_inv _ _ (tmpl_rep_guarded_spec c z (lhas l) Hc Hw)) as ([z0 h0] & Er0 & Hr0 & _). rewrite Er0. cbn [rbind fst snd] in *.
   eapply safe_bind; [apply attrname_loop_spec; [exact Hc|eauto using adv_wf]|]. cbn beta.
-  intros [z1 nh] (Hr1 & _ & c0 & Hp1 & Hstop). cbn [fst snd] in *.
+  intros [z1 nh] (Hr1 & Hnh1 & c0 & Hp1 & Hstop). cbn [fst snd] in *.
   assert (Ha1 : adv z z1) by eauto using adv_trans.
   assert (Hw1 : lx_wf z1) by eauto using adv_wf.
   pose proof (adv_lstart _ _ Ha1) as Hst1. pose proof (adv_lpos_le _ _ Ha1) as Hle1.
@@ -930,8 +931,11 @@ Proof.
   assert (Hw7 : lx_wf (if nh then z6 else lx_lower z6 t)).
   { destruct nh; [exact Hw6|]. apply lx_lower_wf; [exact Hw6|lia|lia|]. rewrite (lx_len_same z z6 B1). lia. }
   rewrite shiftv_spec by exact Hw7. cbn [rbind safe fst snd attr_post].
-  exists t. cbn [ltext lattr lhas lz intag rawtag lerr].
   assert (Hpos7 : lpos (if nh then z6 else lx_lower z6 t) = lpos z6) by (destruct nh; reflexivity).
+  split.
+  { exists (z0, h0). split; [exact Er0|]. cbn [fst snd lz lhas skip lpos]. rewrite Hpos7.
+    split; [apply adv_lpos_le in Hr1; lia|]. intros Hh0. apply H6b, H5c, Hnh1, Hh0. }
+  exists t. cbn [ltext lattr lhas lz intag rawtag lerr].
   assert (Hst7 : lstart (if nh then z6 else lx_lower z6 t) = lstart z) by (destruct nh; cbn; lia).
   split; [reflexivity|]. split; [unfold inview; cbn [so sn]; rewrite Hpos7, Hst7; cbn [so sn] in Ht1, Ht2; lia|].
   split.
